@@ -467,8 +467,13 @@ class POP3CommandHandler:
             # Queue the expunge on the mailbox like an IMAP EXPUNGE so that
             # it cannot interleave with a resync, a pack or an IMAP command.
             #
-            expunge_cmd = IMAPClientCommand("POP3 EXPUNGE")
-            expunge_cmd.command = IMAPCommand.EXPUNGE
+            # NOTE: The phony command is a MOVE (see do_move() in client.py):
+            #       an EXPUNGE is let run alongside other commands when no
+            #       message is flagged `\\Deleted`, but this one removes messages
+            #       regardless of that flag.
+            #
+            expunge_cmd = IMAPClientCommand("POP3 MOVE")
+            expunge_cmd.command = IMAPCommand.MOVE
             try:
                 async with expunge_cmd.ready_and_okay(self.mbox):
                     await self.mbox.expunge(
